@@ -67,7 +67,7 @@ def tlc_validate(path, timeout=1800):
     out = p.stdout
     states = re.search(r"(\d+) states generated, (\d+) distinct states found", out)
     rejected = re.search(r"TRACE-REJECTED.*", out)
-    m = re.search(r"first unmatched event \(1-based line\)\", (\d+)", out)
+    m = re.search(r"first unmatched event \(1-based line\)\",\s*(\d+)", out)
     inv = re.search(r"Invariant (\w+) is violated", out)
     ok = "Model checking completed. No error has been found" in out and not rejected and not inv
     return {"ok": ok, "states": int(states.group(2)) if states else 0, "rejected": rejected.group(0)[:400] if rejected else None,
